@@ -8,6 +8,7 @@ import Rough.Driver.Config
 import Rough.Driver.Envelope
 import Rough.Driver.Procs
 import Rough.Driver.Reqs
+import Rough.Driver.RespSend
 open Rough Rough.Driver
 
 def dispatch (op : String) (args : List String) (impl : String) : Verdict :=
@@ -34,6 +35,8 @@ def dispatch (op : String) (args : List String) (impl : String) : Verdict :=
   | "clientreal" => opClientReal args impl
   | "procleak" => opProcLeak args impl
   | "req" => opReq args impl
+  | "cfgleak" => opCfgLeak args impl
+  | "respsend" => opRespSend args impl
   | "grease" => opGrease args impl
   | "respond" => opRespond (args ++ [impl])
   | _ => bad ("unknown op " ++ op)
